@@ -315,6 +315,12 @@ theorem replay_with_earlier_runs (rows : List Row) (huniq : ∀ r ∈ rows, ∀ 
   passes_from rows huniq runs hsorted hruns hrec hothers qs hqs hreq hagree hback m [] runs rfl none
     (fun _ _ l hl => by cases hl) (fun r hr => by simp [rowsOfRuns] at hr)
 
+/-- what `rr` is: pass `p` (counted from 0) is served from recording `p mod k` - the first pass from the earliest recording -/
+theorem pass_served_from_recording (runs : List Run) (hne : runs ≠ []) (m p : Nat) (hp : p < m) :
+    (rr runs runs m)[p]? = (runs[p % runs.length]?).map (·.2) := by
+  have := rr_drop_index runs hne m 0 p (Nat.zero_le _)
+  simpa [hp] using this
+
 /-- non-vacuity of `replay_with_earlier_runs` and the round robin spelled out: two recordings of the same three requests with
     different answers (a counter read), four passes -/
 def exRun (ctr : UInt8) : List Exch :=
